@@ -9,6 +9,8 @@ that system is well-formed, and its semantics is the stated rational-matrix expr
 where the mathematical result does not exist the operator returns an error.
 -/
 import CtrlVerif.Lemmas.TF
+import CtrlVerif.Model.C01Expr
+import CtrlVerif.Lemmas.C01Expr
 
 namespace CtrlVerif.C01
 
@@ -66,6 +68,7 @@ theorem sem_mul {n : Nat} (G : TFM o (Fin n) K) (H : TFM (Fin n) ι K) (hG : G.W
   rw [h3]; ext i j
   simp [TFM.sem, (hs i j).2, Matrix.mul_apply]
 
+omit [Fintype o] [Fintype ι] in
 /-- a constant array acts as the constant rational matrix. -/
 theorem sem_ofConst (D : o → ι → K) :
     (TFM.ofConst D).WF ∧ (TFM.ofConst D).sem = Matrix.of fun i j => RatFunc.C (D i j) := by
@@ -73,6 +76,7 @@ theorem sem_ofConst (D : o → ι → K) :
   · intro i j; exact Frac.wf_norm _ (Frac.wf_const _)
   · ext i j; simp [TFM.sem, TFM.ofConst, Frac.sem_norm]
 
+omit [Fintype o] [Fintype ι] [Fintype o₂] [Fintype ι₂] in
 /-- `append`: block diagonal. -/
 theorem sem_append (G : TFM o ι K) (H : TFM o₂ ι₂ K) (hG : G.WF) (hH : H.WF) :
     (G.append H).WF ∧ (G.append H).sem = Matrix.fromBlocks G.sem 0 0 H.sem := by
@@ -135,6 +139,7 @@ theorem feedback_singular_raises (G H : TFM (Fin 1) (Fin 1) K) (sign : K) (hG : 
   apply TFM.mk'_err
   exact ⟨0, 0, (fbSiso_not_wf_iff _ _ sign (hG 0 0) (hH 0 0)).mpr hz⟩
 
+omit [Fintype o] [Fintype ι] in
 /-- indexing, `split_tf` and the re-assembly of `combine_tf` are sub-matrix selections. -/
 theorem sem_reindex {o' ι' : Type*} [Fintype o'] [Fintype ι'] (G : TFM o ι K) (hG : G.WF)
     (r : o' → o) (c : ι' → ι) :
@@ -150,4 +155,348 @@ example : (TFM.siso (⟨[1, 2], [1, 0, 3]⟩ : Frac ℚ)).WF := by
   have := congrArg (Polynomial.eval 0) h
   simp at this
 
+/-! ## The tree theorem (DESIGN §3.5)
+
+`TExpr K o ι` (`Model/C01Expr.lean`) is the type of finite expression trees over well-formed
+transfer matrices, constructor calls, constant matrices (scalars are constant matrices) and the
+operators `neg + - * diag(SISO broadcast) **(k+1) / feedback append hcat vcat reindex`, indexed
+by the output / input index types so that the inner dimension of `*` and the block shapes match
+by typing.  `evalModel` interprets a tree by the model operators above, `evalSem` in
+`Matrix o ι (RatFunc K)` (`none` where the mathematical result does not exist).
+
+* `tree_spec` (the induction): either the model returns a well-formed system whose meaning is
+  the value of `evalSem`, or the model raises `zeroDen` and `evalSem` is undefined;
+* `tree_sound`, `tree_error`, `tree_error_kind`, `tree_complete`, `tree_returns_iff`: corollaries;
+* `evalSem_*`: the operand conversions / promotions the code performs (scalar on either side,
+  SISO broadcast in `*`, `+`, `/`, negative powers, flattened `append`) are trees, and their
+  meaning is the documented one.
+
+Scope: the typed layer.  Shape errors, `notImplemented` dispatch outcomes and the timebase are
+decided by the run-time layer `Model/TFDyn.lean` before the typed operators are called; they are
+excluded here by typing (hence "only `zeroDen` errors arise", `tree_error_kind`).
+
+Not proved (full statement of DESIGN §7/C01 over the *run-time shaped* layer): for trees over
+`DTF` / `Operand` leaves with the dispatching operators `DTF.add … DTF.feedback`,
+`evalDyn e = .ok G → G.sys.WF ∧ ⟦G.sys⟧ = evalSem e` and `evalDyn e = .error err ↔` (`err = shape`
+and some shapes are incompatible) ∨ (`err = notImplemented` and a MIMO divisor / MIMO feedback
+occurs) ∨ (`err = timebase` …) ∨ (`err = zeroDen` and the value does not exist).  What is missing
+is the `Fin.cast` glue between `DTF` (shapes as run-time numbers, the SISO tests `isSiso`) and the
+typed operators; that dispatch is exercised by the correspondence runs. -/
+
+end CtrlVerif.C01
+
+namespace CtrlVerif.C01
+
+open CtrlVerif Polynomial Matrix
+
+section treeops
+variable {K : Type*} [Field K] [DecidableEq K]
+variable {o ι o₂ ι₂ : Type*} [Fintype o] [Fintype ι] [Fintype o₂] [Fintype ι₂]
+
+/-- `[G H]` -/
+theorem sem_hcat (G : TFM o ι K) (H : TFM o ι₂ K) (hG : G.WF) (hH : H.WF) :
+    ∃ R, G.hcat H = .ok R ∧ R.WF ∧ R.sem = Matrix.fromCols G.sem H.sem := by
+  obtain ⟨R, h1, h2, h3⟩ := TFM.mk'_spec
+    (fun (i : o) (j : ι ⊕ ι₂) => match j with
+      | .inl j => G.e i j
+      | .inr j => H.e i j)
+    (by rintro i (j | j); exact hG i j; exact hH i j)
+  refine ⟨R, h1, h2, ?_⟩
+  rw [h3]; ext i (j | j) <;> simp [TFM.sem]
+
+theorem sem_vcat (G : TFM o ι K) (H : TFM o₂ ι K) (hG : G.WF) (hH : H.WF) :
+    ∃ R, G.vcat H = .ok R ∧ R.WF ∧ R.sem = Matrix.fromRows G.sem H.sem := by
+  obtain ⟨R, h1, h2, h3⟩ := TFM.mk'_spec
+    (fun (i : o ⊕ o₂) (j : ι) => match i with
+      | .inl i => G.e i j
+      | .inr i => H.e i j)
+    (by rintro (i | i) j; exact hG i j; exact hH i j)
+  refine ⟨R, h1, h2, ?_⟩
+  rw [h3]; ext (i | i) j <;> simp [TFM.sem]
+
+/-- `G ** (k + 1)` for a square `G`, by the recursion of `__pow__`. -/
+theorem sem_powSucc {n : Nat} (G : TFM (Fin n) (Fin n) K) (hG : G.WF) (k : Nat) :
+    ∃ R, G.powSucc k = .ok R ∧ R.WF ∧ R.sem = G.sem ^ (k + 1) := by
+  induction k with
+  | zero =>
+    obtain ⟨hd1, hd2⟩ := sem_diag (Frac.one : Frac K) Frac.wf_one n
+    obtain ⟨R, h1, h2, h3⟩ := sem_mul G (TFM.diag Frac.one n) hG hd1
+    refine ⟨R, h1, h2, ?_⟩
+    rw [h3, hd2]; simp
+  | succ k ih =>
+    obtain ⟨P, p1, p2, p3⟩ := ih
+    obtain ⟨R, h1, h2, h3⟩ := sem_mul G P hG p2
+    refine ⟨R, ?_, h2, ?_⟩
+    · simp [TFM.powSucc, p1, h1, bind, Except.bind]
+    · rw [h3, p3, ← pow_succ']
+
+end treeops
+
+section tree
+variable {K : Type} [Field K] [DecidableEq K]
+
+theorem tree_spec {o ι : Type} (e : TExpr K o ι) : TSpec e.evalModel e.evalSem := by
+  induction e with
+  | sys G hG => exact TSpec.ok hG
+  | ctor raw =>
+    simp only [TExpr.evalModel, TExpr.evalSem]
+    by_cases h : ∃ i j, toPoly (raw i j).den = 0
+    · rw [if_pos h]; exact Or.inr ⟨ctor_zero_den_raises raw h, rfl⟩
+    · rw [if_neg h]
+      exact TSpec.of_total (ctor_sem raw (fun i j hz => h ⟨i, j, hz⟩))
+  | const D =>
+    simp only [TExpr.evalModel, TExpr.evalSem]
+    exact Or.inl ⟨_, rfl, (sem_ofConst D).1, by rw [(sem_ofConst D).2]⟩
+  | neg a ih =>
+    simp only [TExpr.evalModel, TExpr.evalSem]
+    exact ih.bind1 sem_neg
+  | add a b iha ihb =>
+    simp only [TExpr.evalModel, TExpr.evalSem]
+    exact iha.bind2 ihb sem_add
+  | sub a b iha ihb =>
+    simp only [TExpr.evalModel, TExpr.evalSem]
+    exact iha.bind2 ihb sem_sub
+  | mul a b iha ihb =>
+    simp only [TExpr.evalModel, TExpr.evalSem]
+    exact iha.bind2 ihb sem_mul
+  | diag n g ih =>
+    simp only [TExpr.evalModel, TExpr.evalSem]
+    exact ih.bind1 fun x hx =>
+      ⟨_, rfl, (sem_diag (x.e 0 0) (hx 0 0) n).1, (sem_diag (x.e 0 0) (hx 0 0) n).2⟩
+  | powSucc a k ih =>
+    simp only [TExpr.evalModel, TExpr.evalSem]
+    exact ih.bind1 fun x hx => sem_powSucc x hx k
+  | div a b iha ihb =>
+    simp only [TExpr.evalModel, TExpr.evalSem]
+    refine iha.bind2_cond ihb (c := fun _ y => y 0 0 = 0)
+      (g := fun x y => Matrix.of fun _ _ => x 0 0 / y 0 0) ?_ ?_
+    · intro x y hx hy hc
+      obtain ⟨R, h1, h2, h3⟩ := sem_truediv x y hx hy hc
+      refine ⟨R, h1, h2, ?_⟩
+      ext i j
+      rw [Subsingleton.elim i 0, Subsingleton.elim j 0, h3]; rfl
+    · intro x y hx hy hc
+      exact truediv_zero_raises x y hx hy hc
+  | fb a b s iha ihb =>
+    simp only [TExpr.evalModel, TExpr.evalSem]
+    refine iha.bind2_cond ihb (c := fun x y => 1 - RatFunc.C s * y 0 0 * x 0 0 = 0)
+      (g := fun x y => Matrix.of fun _ _ => x 0 0 / (1 - RatFunc.C s * y 0 0 * x 0 0)) ?_ ?_
+    · intro x y hx hy hc
+      obtain ⟨R, h1, h2, h3⟩ := sem_feedback x y s hx hy hc
+      refine ⟨R, h1, h2, ?_⟩
+      ext i j
+      rw [Subsingleton.elim i 0, Subsingleton.elim j 0, h3]; rfl
+    · intro x y hx hy hc
+      exact feedback_singular_raises x y s hx hy hc
+  | append a b iha ihb =>
+    simp only [TExpr.evalModel, TExpr.evalSem]
+    exact iha.bind2 ihb fun x y hx hy =>
+      ⟨_, rfl, (sem_append x y hx hy).1, (sem_append x y hx hy).2⟩
+  | hcat a b iha ihb =>
+    simp only [TExpr.evalModel, TExpr.evalSem]
+    exact iha.bind2 ihb sem_hcat
+  | vcat a b iha ihb =>
+    simp only [TExpr.evalModel, TExpr.evalSem]
+    exact iha.bind2 ihb sem_vcat
+  | reindex a r c ih =>
+    simp only [TExpr.evalModel, TExpr.evalSem]
+    exact ih.bind1 fun x hx => sem_reindex x hx r c
+
+end tree
+section treethms
+variable {K : Type} [Field K] [DecidableEq K] {o ι : Type}
+
+theorem tree_sound (e : TExpr K o ι) (G : TFM o ι K) (h : e.evalModel = .ok G) :
+    G.WF ∧ e.evalSem = some G.sem := by
+  rcases tree_spec e with ⟨G', h1, h2, h3⟩ | ⟨h1, _⟩
+  · rw [h1] at h; cases h; exact ⟨h2, h3⟩
+  · rw [h1] at h; cases h
+
+theorem tree_error (e : TExpr K o ι) :
+    (∃ err, e.evalModel = .error err) ↔ e.evalSem = none := by
+  rcases tree_spec e with ⟨G', h1, h2, h3⟩ | ⟨h1, h2⟩
+  · rw [h1, h3]; simp
+  · rw [h1, h2]; simp
+
+theorem tree_error_kind (e : TExpr K o ι) (err : Err) (h : e.evalModel = .error err) :
+    err = .zeroDen := by
+  rcases tree_spec e with ⟨G', h1, h2, h3⟩ | ⟨h1, _⟩
+  · rw [h1] at h; cases h
+  · rw [h1] at h; cases h; rfl
+
+theorem tree_complete (e : TExpr K o ι) (M : Matrix o ι (RatFunc K)) (h : e.evalSem = some M) :
+    ∃ G, e.evalModel = .ok G ∧ G.WF ∧ G.sem = M := by
+  rcases tree_spec e with ⟨G', h1, h2, h3⟩ | ⟨_, h2⟩
+  · rw [h3] at h; cases h; exact ⟨G', h1, h2, rfl⟩
+  · rw [h2] at h; cases h
+
+theorem tree_returns_iff (e : TExpr K o ι) :
+    (∃ G, e.evalModel = .ok G) ↔ e.evalSem.isSome = true := by
+  rcases tree_spec e with ⟨G', h1, h2, h3⟩ | ⟨h1, h2⟩
+  · rw [h1, h3]; simp
+  · rw [h1, h2]; simp
+
+end treethms
+
+section derived
+variable {K : Type} [Field K] [DecidableEq K]
+open TExpr
+
+theorem evalSem_scaledEye (c : K) (n : Nat) :
+    (scaledEye c n).evalSem = some (RatFunc.C c • (1 : Matrix (Fin n) (Fin n) (RatFunc K))) := by
+  simp only [scaledEye, evalSem]
+  congr 1
+  ext i j
+  by_cases h : i = j <;> simp [h]
+
+theorem evalSem_smulL {n : Nat} {ι : Type} [Fintype ι] (c : K) (a : TExpr K (Fin n) ι) :
+    (smulL c a).evalSem = a.evalSem.map fun x => RatFunc.C c • x := by
+  simp only [smulL, evalSem, evalSem_scaledEye]
+  cases a.evalSem <;> simp
+
+theorem evalSem_smulR {o : Type} [Fintype o] {n : Nat} (a : TExpr K o (Fin n)) (c : K) :
+    (smulR a c).evalSem = a.evalSem.map fun x => RatFunc.C c • x := by
+  simp only [smulR, evalSem, evalSem_scaledEye]
+  cases a.evalSem <;> simp
+
+theorem evalSem_addScalar {o ι : Type} [Fintype o] [Fintype ι] (a : TExpr K o ι) (c : K) :
+    (addScalar a c).evalSem = a.evalSem.map fun x => x + Matrix.of fun _ _ => RatFunc.C c := by
+  simp only [addScalar, full, evalSem]
+  cases a.evalSem <;> simp
+
+theorem evalSem_mulSisoL {n : Nat} {ι : Type} [Fintype ι] (g : TExpr K (Fin 1) (Fin 1))
+    (a : TExpr K (Fin n) ι) :
+    (mulSisoL g a).evalSem = (do let h ← g.evalSem; let x ← a.evalSem; pure (h 0 0 • x)) := by
+  simp only [mulSisoL, evalSem]
+  cases g.evalSem <;> cases a.evalSem <;> simp
+
+theorem evalSem_mulSisoR {o : Type} [Fintype o] {n : Nat} (a : TExpr K o (Fin n))
+    (g : TExpr K (Fin 1) (Fin 1)) :
+    (mulSisoR a g).evalSem = (do let x ← a.evalSem; let h ← g.evalSem; pure (h 0 0 • x)) := by
+  simp only [mulSisoR, evalSem]
+  cases g.evalSem <;> cases a.evalSem <;> simp
+
+theorem evalSem_addSisoR {p m : Nat} (a : TExpr K (Fin p) (Fin m)) (g : TExpr K (Fin 1) (Fin 1)) :
+    (addSisoR a g).evalSem
+      = (do let x ← a.evalSem; let h ← g.evalSem; pure (x + Matrix.of fun _ _ => h 0 0)) := by
+  simp only [addSisoR, onesTimes, full, evalSem]
+  cases g.evalSem <;> cases a.evalSem <;> simp
+  ext i j
+  simp
+
+theorem evalSem_unity : (unity : TExpr K (Fin 1) (Fin 1)).evalSem = some 1 := by
+  simp only [unity, evalSem]
+  rw [if_neg (by simp [Frac.one, toPoly_cons])]
+  congr 1
+  ext i j
+  rw [Subsingleton.elim i j]; simp
+
+theorem evalSem_recip (h : TExpr K (Fin 1) (Fin 1)) :
+    (recip h).evalSem = (do
+      let y ← h.evalSem
+      haveI := Classical.dec (y 0 0 = 0)
+      if y 0 0 = 0 then none else some (Matrix.of fun _ _ => (y 0 0)⁻¹)) := by
+  simp only [recip, evalSem, evalSem_unity]
+  cases h.evalSem <;> simp
+
+theorem evalSem_powNeg (h : TExpr K (Fin 1) (Fin 1)) (k : Nat) :
+    (powNeg h (k + 1)).evalSem = (do
+      let y ← h.evalSem
+      haveI := Classical.dec (y 0 0 = 0)
+      if y 0 0 = 0 then none else some (Matrix.of fun _ _ => ((y 0 0)⁻¹) ^ (k + 1))) := by
+  induction k with
+  | zero =>
+    simp only [powNeg, evalSem, evalSem_recip, evalSem_unity]
+    cases h.evalSem with
+    | none => simp
+    | some y =>
+      by_cases hy : y 0 0 = 0 <;> simp [hy]
+  | succ k ih =>
+    rw [powNeg]
+    simp only [evalSem, evalSem_recip, ih]
+    cases h.evalSem with
+    | none => simp
+    | some y =>
+      by_cases hy : y 0 0 = 0 <;> simp [hy]
+      ext i j
+      simp [Matrix.mul_apply, pow_succ']
+      ring
+
+theorem evalSem_divSisoR {o : Type} [Fintype o] {n : Nat} (a : TExpr K o (Fin n))
+    (h : TExpr K (Fin 1) (Fin 1)) :
+    (divSisoR a h).evalSem = (do
+      let x ← a.evalSem
+      let y ← h.evalSem
+      haveI := Classical.dec (y 0 0 = 0)
+      if y 0 0 = 0 then none else some ((y 0 0)⁻¹ • x)) := by
+  rw [divSisoR, evalSem_mulSisoR, evalSem_powNeg]
+  cases a.evalSem with
+  | none => simp
+  | some x =>
+    cases h.evalSem with
+    | none => simp
+    | some y => by_cases hy : y 0 0 = 0 <;> simp [hy]
+
+theorem evalSem_appendFlat {p m p₂ m₂ : Nat} (a : TExpr K (Fin p) (Fin m))
+    (b : TExpr K (Fin p₂) (Fin m₂)) :
+    (appendFlat a b).evalSem = (do
+      let x ← a.evalSem
+      let y ← b.evalSem
+      pure ((Matrix.fromBlocks x 0 0 y).submatrix finSumFinEquiv.symm finSumFinEquiv.symm)) := by
+  simp only [appendFlat, evalSem]
+  cases a.evalSem <;> cases b.evalSem <;> simp
+
+end derived
+
+/-! non-vacuity of the tree theorems: concrete trees over `ℚ` -/
+
+section nonvacuity
+open TExpr
+
+/-- a dynamic SISO leaf `(s + 2) / (s² + 3)` together with its class invariant. -/
+def exG1 : {G : TFM (Fin 1) (Fin 1) ℚ // G.WF} :=
+  ⟨TFM.siso ⟨[1, 2], [1, 0, 3]⟩, by
+    intro i j; simp [TFM.siso, Frac.WF, toPoly_cons]
+    intro h
+    have := congrArg (Polynomial.eval 0) h
+    simp at this⟩
+
+/-- `A * (g * B) - 3` with `A : 2 × 3`, `B : 3 × 2` constant arrays and a SISO system `g`:
+the hypothesis `evalModel e = .ok G` of `tree_sound` is satisfiable on a non-square tree with a
+SISO broadcast and a scalar operand. -/
+example : ∃ G, (sub (mul (const fun (i : Fin 2) (j : Fin 3) => (i.val + 2 * j.val : ℚ))
+      (mulSisoL (sys exG1.1 exG1.2) (const fun (i : Fin 3) (j : Fin 2) => (i.val - j.val : ℚ))))
+    (scaledEye 3 2)).evalModel = .ok G := by
+  rw [tree_returns_iff]
+  simp [evalSem, mulSisoL, scaledEye]
+
+/-- feedback around a dynamic system with a zero return path exists. -/
+example : ∃ G, (fb (sys exG1.1 exG1.2) (scalar 0) 1).evalModel = .ok G := by
+  rw [tree_returns_iff]
+  simp [evalSem, TExpr.scalar]
+
+/-- `1 / (g - g)`: the left-hand side of `tree_error` is satisfiable (division by the zero
+function raises). -/
+example : (recip (sub (sys exG1.1 exG1.2) (sys exG1.1 exG1.2))).evalModel = .error .zeroDen := by
+  have h : (recip (sub (sys exG1.1 exG1.2) (sys exG1.1 exG1.2))).evalSem = none := by
+    simp [evalSem_recip, evalSem]
+  obtain ⟨err, he⟩ := (tree_error _).mpr h
+  rw [he, tree_error_kind _ err he]
+
+/-- `feedback(1, 1, sign = +1)`: `1 - 1 * 1 * 1 ≡ 0` raises, also below an enclosing operator. -/
+example : (neg (fb (scalar (1 : ℚ)) (scalar 1) 1)).evalModel = .error .zeroDen := by
+  have h : (neg (fb (scalar (1 : ℚ)) (scalar 1) 1)).evalSem = none := by
+    simp [evalSem, TExpr.scalar]
+  obtain ⟨err, he⟩ := (tree_error _).mpr h
+  rw [he, tree_error_kind _ err he]
+
+/-- a zero denominator handed to the constructor raises inside a tree. -/
+example : (add (ctor fun (_ _ : Fin 1) => (⟨[1], [0, 0]⟩ : Frac ℚ)) (scalar 2)).evalModel
+    = .error .zeroDen := by
+  have h : (add (ctor fun (_ _ : Fin 1) => (⟨[1], [0, 0]⟩ : Frac ℚ)) (scalar 2)).evalSem = none := by
+    simp [evalSem, toPoly_cons]
+  obtain ⟨err, he⟩ := (tree_error _).mpr h
+  rw [he, tree_error_kind _ err he]
+
+end nonvacuity
 end CtrlVerif.C01
